@@ -63,13 +63,24 @@ if __name__ == "__main__":
         if ps:
             jobs.append((sid, ps, tier))
     caught = missed = 0
+    expected = {}
+    full_own_run = not argv or argv == ["--write-expected"]
     with cf.ThreadPoolExecutor(8) as ex:
         for res in ex.map(one, jobs):
             for sid, prop, rc, line in res:
                 print("%-8s %-4s exit=%s  %s" % (sid, prop, rc, line))
+                if rc == 1 and prop == json.loads((VERIF / "seeded" / sid / "meta.json").read_text())["property"]:
+                    expected.setdefault(prop, []).append(sid)
             own = json.loads((VERIF / "seeded" / res[0][0] / "meta.json").read_text())["property"] if res else None
             if any(rc == 1 for _, _, rc, _ in res):
                 caught += 1
             else:
                 missed += 1
     print("changes caught by at least one listed check: %d, not caught: %d" % (caught, missed))
+    if full_own_run and "--write-expected" in argv:
+        # the thorough tier replays exactly these (own-property check exits 1) on the reference tree
+        (VERIF / "seeded" / "EXPECTED.json").write_text(json.dumps({k: sorted(v) for k, v in sorted(expected.items())}, indent=1))
+        sys.path.insert(0, str(VERIF / "selftest"))
+        import corpora
+        (VERIF / "selftest" / "reference_digest.txt").write_text(corpora.tree_digest("/repo") + "\n")
+        print("seeded/EXPECTED.json and selftest/reference_digest.txt rewritten")
